@@ -193,11 +193,13 @@ Definition leap (y : Z) : bool :=
 Definition days_in_month (y : Z) (m : N) : N :=
   if (m =? 4) || (m =? 6) || (m =? 9) || (m =? 11) then 30
   else if m =? 2 then (if leap y then 29 else 28) else 31.
-(* NaiveDate::from_ymd_opt (|y| < 262143 always holds for an i32 / 10000) *)
-Definition ymd_ok (y : Z) (m d : N) : bool := (1 <=? m) && (m <=? 12) && (1 <=? d) && (d <=? days_in_month y m).
+(* NaiveDate::from_ymd_opt: the calendar's year range (chrono: MAX_YEAR = i32::MAX >> 13), month, day of that month *)
+Definition MAX_YEAR : Z := 262143.
+Definition ymd_ok (y : Z) (m d : N) : bool :=
+  (y <=? MAX_YEAR)%Z && (1 <=? m) && (m <=? 12) && (1 <=? d) && (d <=? days_in_month y m).
 Definition hms_ok (h mi s : N) : bool := (h <? 24) && (mi <? 60) && (s <? 60).
 
-(* `x as i32` for a usize x *)
+(* `x as i32` for a usize x: what the decoder did to the date before the fix of F8 (Legacy.v) *)
 Definition as_i32 (x : N) : Z :=
   let m := x mod 4294967296 in if m <? 2147483648 then Z.of_N m else (Z.of_N m - 4294967296)%Z.
 
@@ -230,10 +232,11 @@ Definition datetime_dec (bs : bytes) : res (value * bytes) :=
   let* (dtm, r) := dt_loop (S (length bs)) bs None None in
   match dtm with
   | (Some date, Some time) =>
-      let y := Z.quot (as_i32 date) 10000 in
-      let du := date mod 4294967296 in
-      let mo := (du mod 10000) / 100 in          (* after the fix of F3; was % 1000 *)
-      let d := du mod 100 in
+      (* after the fix of F8: i32::try_from(date / 10000) — a year beyond i32 is the same error as a year beyond the calendar;
+         month and day from the whole number (before: `date as i32 / 10000`, `date as u32 % ..`) *)
+      let y := Z.of_N (date / 10000) in
+      let mo := (date mod 10000) / 100 in          (* after the fix of F3; was % 1000 *)
+      let d := date mod 100 in
       let h := time / 10000 in
       let mi := (time mod 10000) / 100 in
       let s := time mod 100 in
